@@ -5,6 +5,7 @@ package main
 
 import (
 	"fmt"
+	"os"
 	"runtime"
 	"go/token"
 	"sort"
@@ -96,6 +97,7 @@ type Explorer struct {
 	Workers  int
 	Transcripts string
 	Seed      int
+	QuickMs   int
 
 	mu        sync.Mutex
 	work      [][]Dec
@@ -110,6 +112,7 @@ type Explorer struct {
 	covers    map[string]int
 	asserts   map[string]int
 	stats     SolverStats
+	fbStats   SolverStats
 	decisions int
 	stubs     map[string]int
 	witnessEvery int
@@ -158,6 +161,8 @@ type Exec struct {
 	known     map[*Term]bool
 	model     Model // a model of the current path condition, or nil
 	auxVars   []*Term
+	pendingHash uint64
+	leftPrefix  bool
 }
 
 func (ex *Exec) end(kind endKind, format string, args ...interface{}) {
@@ -176,6 +181,10 @@ func (ex *Exec) inPrefix() bool { return ex.pos < len(ex.prefix) }
 
 func (ex *Exec) take(c *Term, d bool) {
 	k := uint8(decFalse)
+	h := c.SHash()
+	if ex.inPrefix() && ex.prefix[ex.pos].H != h {
+		ex.end(endInconclusive, "replay diverged from the recorded decision prefix at decision %d (internal error)", ex.pos)
+	}
 	if !d {
 		c = ex.ts.BNot(c)
 	} else {
@@ -185,8 +194,35 @@ func (ex *Exec) take(c *Term, d bool) {
 	ex.pc = append(ex.pc, c)
 	ex.learn(c)
 	ex.keepModel(c)
-	ex.decisions = append(ex.decisions, Dec{K: k})
+	ex.decisions = append(ex.decisions, Dec{K: k, H: h})
 	ex.pos++
+}
+
+// leavePrefix runs once per path when the recorded prefix has been replayed:
+// the replayed path condition must be satisfiable (it was when the prefix was
+// enqueued); the model found also seeds the model cache.
+func (ex *Exec) leavePrefix() {
+	if ex.leftPrefix {
+		return
+	}
+	ex.leftPrefix = true
+	if len(ex.prefix) == 0 || ex.model != nil {
+		return
+	}
+	r, m := ex.check(nil, true)
+	if r == Unsat {
+		ex.end(endInconclusive, "replayed decision prefix is infeasible (internal error)")
+	}
+	ex.model = m
+}
+
+// addConj adds a conjunct to the path condition (solver, literal cache,
+// cached model) - the same way whether it is replayed or new.
+func (ex *Exec) addConj(c *Term) {
+	ex.W.solver.Assert(c)
+	ex.pc = append(ex.pc, c)
+	ex.learn(c)
+	ex.keepModel(c)
 }
 
 // keepModel drops the cached model unless it satisfies the new conjunct.
@@ -260,6 +296,7 @@ func (ex *Exec) knownValue(c *Term) (bool, bool) {
 type Dec struct {
 	K uint8
 	V uint64
+	H uint64 // structural hash of the condition (replay alignment check)
 }
 
 const (
@@ -314,6 +351,8 @@ func (ex *Exec) branch(c *Term) bool {
 		ex.take(c, d)
 		return d
 	}
+	ex.leavePrefix()
+	ex.pendingHash = c.SHash()
 	// one side may already be witnessed by the cached model of pc
 	if mv, ok := ex.holdsInModel(c); ok {
 		other := c
@@ -334,6 +373,11 @@ func (ex *Exec) branch(c *Term) bool {
 	}
 	rt, mt := ex.check(c, true)
 	if rt == Unsat {
+		if os.Getenv("GOSYMEX_PARANOID") != "" {
+			if r0, _ := ex.check(nil, false); r0 == Unsat {
+				ex.end(endInconclusive, "path condition is unsatisfiable at a branch (inconsistent solver answers)")
+			}
+		}
 		ex.take(c, false)
 		return false
 	}
@@ -350,9 +394,10 @@ func (ex *Exec) branch(c *Term) bool {
 }
 
 func (ex *Exec) forkFalse() {
+	// pendingHash is set by branch before forking
 	other := make([]Dec, len(ex.decisions)+1)
 	copy(other, ex.decisions)
-	other[len(ex.decisions)] = Dec{K: decFalse}
+	other[len(ex.decisions)] = Dec{K: decFalse, H: ex.pendingHash}
 	ex.W.E.enqueue(other)
 }
 
@@ -374,6 +419,7 @@ func (ex *Exec) assume(c *Term) {
 	if ex.inPrefix() || ex.model != nil {
 		return
 	}
+	ex.leftPrefix = true
 	r, m := ex.check(nil, true)
 	if r == Unsat {
 		ex.end(endInfeasible, "assumption infeasible")
@@ -459,24 +505,31 @@ func (ex *Exec) oblige(c *Term, id string) {
 		ex.take(c, d)
 		return
 	}
+	ex.leavePrefix()
 	if c.IsFalse() {
 		_, m := ex.check(nil, true)
 		ex.recordViolation(id, ex.shrunkModel(nil, m), true)
 		ex.end(endViolated, "obligation %s violated on every input of this path", id)
 	}
 	mv, haveModel := ex.holdsInModel(c)
+	violable := false
 	if haveModel && !mv {
 		// the cached model of pc is itself a counterexample
 		ex.recordViolation(id, ex.shrunkModel(ex.ts.BNot(c), ex.model), false)
+		violable = true
 	} else {
 		r, m := ex.check(ex.ts.BNot(c), true)
 		if r == Sat {
 			ex.recordViolation(id, ex.shrunkModel(ex.ts.BNot(c), m), false)
+			violable = true
 		}
 	}
 	if !(haveModel && mv) {
 		r2, m2 := ex.check(c, true)
 		if r2 == Unsat {
+			if !violable {
+				ex.end(endInconclusive, "path condition is unsatisfiable at obligation %s (inconsistent solver answers)", id)
+			}
 			ex.end(endViolated, "obligation %s violated on every input of this path", id)
 		}
 		ex.model = m2
@@ -554,24 +607,24 @@ func (ex *Exec) concretize(t *Term, lo, hi uint64) uint64 {
 	for {
 		if ex.inPrefix() {
 			d := ex.prefix[ex.pos]
+			if d.H != t.SHash() {
+				ex.end(endInconclusive, "replay diverged from the recorded decision prefix at concretisation %d (internal error)", ex.pos)
+			}
 			switch d.K {
 			case decEq:
-				c := ts.Eq(t, ts.Const(t.W, d.V))
-				ex.W.solver.Assert(c)
-				ex.pc = append(ex.pc, c)
+				ex.addConj(ts.Eq(t, ts.Const(t.W, d.V)))
 				ex.decisions = append(ex.decisions, d)
 				ex.pos++
 				return d.V
 			case decNe:
-				c := ts.BNot(ts.Eq(t, ts.Const(t.W, d.V)))
-				ex.W.solver.Assert(c)
-				ex.pc = append(ex.pc, c)
+				ex.addConj(ts.BNot(ts.Eq(t, ts.Const(t.W, d.V))))
 				ex.decisions = append(ex.decisions, d)
 				ex.pos++
 				continue
 			}
 			panic("decision prefix out of step (expected a concretisation)")
 		}
+		ex.leavePrefix()
 		if ex.model == nil {
 			r, m := ex.check(nil, true)
 			if r == Unsat {
@@ -584,13 +637,11 @@ func (ex *Exec) concretize(t *Term, lo, hi uint64) uint64 {
 		if r2, _ := ex.check(ts.BNot(eq), false); r2 == Sat {
 			other := make([]Dec, len(ex.decisions)+1)
 			copy(other, ex.decisions)
-			other[len(ex.decisions)] = Dec{K: decNe, V: v}
+			other[len(ex.decisions)] = Dec{K: decNe, V: v, H: t.SHash()}
 			ex.W.E.enqueue(other)
 		}
-		ex.W.solver.Assert(eq)
-		ex.pc = append(ex.pc, eq)
-		ex.learn(eq)
-		ex.decisions = append(ex.decisions, Dec{K: decEq, V: v})
+		ex.addConj(eq)
+		ex.decisions = append(ex.decisions, Dec{K: decEq, V: v, H: t.SHash()})
 		ex.pos++
 		return v
 	}
@@ -646,6 +697,7 @@ type ExploreResult struct {
 	Decisions  int
 	Wall       time.Duration
 	Stubs      map[string]int
+	Fallback   SolverStats
 }
 
 func (E *Explorer) Explore() *ExploreResult {
@@ -680,6 +732,9 @@ func (E *Explorer) Explore() *ExploreResult {
 				return
 			}
 			s.seed = E.Seed
+			s.fbBin = "cvc5"
+			s.quickMs = E.QuickMs
+			s.fbMs = E.TimeoutMs
 			w := &Worker{E: E, ts: NewTermStore(), solver: s, id: id}
 			defer func() {
 				E.mu.Lock()
@@ -688,6 +743,11 @@ func (E *Explorer) Explore() *ExploreResult {
 				E.stats.Unsat += s.Stats.Unsat
 				E.stats.Unknown += s.Stats.Unknown
 				E.stats.Time += s.Stats.Time
+				E.fbStats.Queries += s.FbStats.Queries
+				E.fbStats.Sat += s.FbStats.Sat
+				E.fbStats.Unsat += s.FbStats.Unsat
+				E.fbStats.Unknown += s.FbStats.Unknown
+				E.fbStats.Time += s.FbStats.Time
 				if s.Stats.MaxQuery > E.stats.MaxQuery {
 					E.stats.MaxQuery = s.Stats.MaxQuery
 				}
@@ -709,7 +769,7 @@ func (E *Explorer) Explore() *ExploreResult {
 	}
 	wg.Wait()
 	res := &ExploreResult{Paths: E.paths, Inconcl: E.inconcl, Stats: E.stats, FuncSteps: E.funcSteps,
-		Covers: E.covers, Asserts: E.asserts, Decisions: E.decisions, Wall: time.Since(start), Stubs: E.stubs}
+		Covers: E.covers, Asserts: E.asserts, Decisions: E.decisions, Wall: time.Since(start), Stubs: E.stubs, Fallback: E.fbStats}
 	var keys []string
 	for k := range E.viol {
 		keys = append(keys, k)
